@@ -236,7 +236,7 @@ class Ctx:
         raise ToolError(f"TLC trace validation ({module}) failed without a verdict:\n" + out[-4000:])
 
     def validate(self, module, events_path, cfg=None, shard=2000, env=None, timeout=1800, xmx="3g",
-                 group_key=None, jobs=None):
+                 group_key=None, jobs=None, group_field=None):
         """impl -> spec: validate the ndjson trace written by the harness against spec/trace/<module>.
         The trace is cut into shards (at 'reset' boundaries when group_key is given, i.e. events
         that belong together stay together); each shard is one TLC run with -workers 1.
@@ -246,9 +246,15 @@ class Ctx:
             raise ToolError(f"empty trace {events_path}")
         shards = []
         cur = []
+        prev_grp = None
         for ln in lines:
             boundary = True
-            if group_key is not None:
+            if group_field is not None:
+                m = re.search(r'"%s":"([^"]*)"' % group_field, ln)
+                g = m.group(1) if m else None
+                boundary = g != prev_grp
+                prev_grp = g
+            elif group_key is not None:
                 boundary = ('"%s"' % group_key) in ln[:80]
             if len(cur) >= shard and boundary:
                 shards.append(cur)
